@@ -116,6 +116,22 @@ func TestVerifC09(t *testing.T) {
 			if impl[i] == "panic" && fail == "" {
 				fail, tag = fmt.Sprintf("op %d panics", i), "retention-panic"
 			}
+			// the surviving log is a contiguous suffix readable from its oldest offset
+			if op == "read 0 u" && fail == "" {
+				rs, ok := vParseRead(impl[i])
+				if !ok && vStateInt(impl[pre], "new") >= 0 {
+					fail, tag = fmt.Sprintf("op %d: read-back failed: %s", i, impl[i]), "retention-read-failed"
+				}
+				for k := 1; k < len(rs); k++ {
+					if rs[k].off != rs[k-1].off+1 {
+						fail, tag = fmt.Sprintf("op %d: read-back is not contiguous: offset %d follows %d", i, rs[k].off, rs[k-1].off), "retention-not-contiguous"
+						break
+					}
+				}
+				if ok && len(rs) > 0 && (rs[0].off != vStateInt(impl[pre], "old") || rs[len(rs)-1].off != vStateInt(impl[pre], "new")) {
+					fail, tag = fmt.Sprintf("op %d: read-back covers %d..%d, log says oldest %d newest %d", i, rs[0].off, rs[len(rs)-1].off, vStateInt(impl[pre], "old"), vStateInt(impl[pre], "new")), "retention-not-contiguous"
+				}
+			}
 		}
 		res.Count(strings.Join(prog, "\n"), nontrivial)
 		if res.Evaluations%500 == 1 {
@@ -220,6 +236,26 @@ func TestVerifC09(t *testing.T) {
 			}
 		}
 		addAppends(nApp)
+		// a clean that races with the writer: appends (and segment rolls) happen right after
+		// Clean() snapshotted the segment list
+		midClean := func() string {
+			g := 1 + rnd.Intn(3)
+			parts := make([]string, g)
+			for i := range parts {
+				b := 1 + rnd.Intn(2)
+				toks := make([]string, b)
+				for j := range toks {
+					toks[j] = fmt.Sprintf("61/*%d.5/_/-1", rnd.Intn(4)*100)
+				}
+				parts[i] = strings.Join(toks, " ")
+			}
+			ts += 100
+			res.Dist(fmt.Sprintf("cleanmid:groups=%d", g))
+			return fmt.Sprintf("cleanmid %d 1 %d %s", 1000+rnd.Intn(int(ts-1000)+60), ts, strings.Join(parts, " + "))
+		}
+		if rnd.Intn(4) == 0 {
+			prog = append(prog, midClean(), "read 0 u")
+		}
 		prog = append(prog, fmt.Sprintf("clean %d", 1000+rnd.Intn(int(ts-1000)+60)))
 		if rnd.Intn(3) == 0 {
 			prog = append(prog, fmt.Sprintf("clean %d", 1000+rnd.Intn(int(ts-1000)+60)))
